@@ -74,6 +74,7 @@ type Interp struct {
 	freezeHits []string
 	initDone   bool
 	cur        *Worker
+	siteCount  map[string]int
 	stubsUsed  map[string]int
 	lastBlock  []blockEvent
 }
@@ -491,6 +492,10 @@ func visitInstr(fr *frame, instr ssa.Instruction) continuation {
 		x := fr.get(instr.X)
 		switch x := x.(type) {
 		case []value:
+			if se := in.symElemAddr(fr, instr, x); se != nil {
+				fr.set(instr, se)
+				break
+			}
 			idx := in.index(fr, fr.get(instr.Index), len(x))
 			fr.set(instr, &x[idx])
 		case *value: // *array
@@ -498,6 +503,10 @@ func visitInstr(fr *frame, instr ssa.Instruction) continuation {
 				in.rtPanic("invalid memory address or nil pointer dereference")
 			}
 			a := (*x).(array)
+			if se := in.symElemAddr(fr, instr, a); se != nil {
+				fr.set(instr, se)
+				break
+			}
 			idx := in.index(fr, fr.get(instr.Index), len(a))
 			fr.set(instr, &a[idx])
 		default:
